@@ -126,10 +126,16 @@ def generate(unit, repo_src=None, modes=None, probe=False):
             if (not top) and (key in sf.drop_fns or (sf.keep_fns is not None and not sf.keep_fns(key))):
                 a = fn.a; b = fn.b
                 ls = f.src.rfind('\n', 0, a) + 1
+                # doc comments / comment lines directly above the function go with it
+                if f.src[ls:a].strip() == '':
+                    while ls > 0:
+                        pl = f.src.rfind('\n', 0, ls - 1) + 1
+                        if f.src[pl:ls].strip().startswith('//'): ls = pl
+                        else: break
                 e = b
                 while e < len(f.src) and f.src[e] in ' \t': e += 1
                 if e < len(f.src) and f.src[e] == '\n': e += 1
-                ed.replace(ls if f.src[ls:a].strip() == '' else a, e, '')
+                ed.replace(ls if f.src[ls:a].lstrip().startswith('//') or f.src[ls:a].strip() == '' else a, e, '')
                 c['dropped_fns'] = c.get('dropped_fns', 0) + 1
                 continue
             # rule 5: `_` parameter patterns
@@ -138,14 +144,15 @@ def generate(unit, repo_src=None, modes=None, probe=False):
                 if t[i].s == '_' and t[i + 1].s == ':' and t[i - 1].s in ('(', ','):
                     ed.replace(t[i].a, t[i].b, '_unused%d' % n_un); n_un += 1
                     c['rule5_underscore_param'] = c.get('rule5_underscore_param', 0) + 1
-            if sf.string_concat:
-                from .splice import fold_string_concat
-                fold_string_concat(f, fn, ed, c)
-            if sf.dyn_calls:
-                from .splice import rewrite_dyn_calls
-                rewrite_dyn_calls(f, fn, ed, c)
             spec = sf.fns.get(key)
             md = modes.get(key, 'full')
+            body_dropped = md == 'external' or (spec is not None and spec.trust)
+            if sf.string_concat and not body_dropped:
+                from .splice import fold_string_concat
+                fold_string_concat(f, fn, ed, c)
+            if sf.dyn_calls and not body_dropped:
+                from .splice import rewrite_dyn_calls
+                rewrite_dyn_calls(f, fn, ed, c)
             if spec is None and md == 'external':
                 ed.replace(t[fn.i_bo].a, t[fn.i_bc].b, '{ unimplemented!() }')
                 ed.insert(t[fn.i_attr].a, '#[verifier::external_body]\n')
